@@ -24,7 +24,7 @@ pub fn bin(name: &str) -> PathBuf {
     Path::new(&verif_root()).join("target/repo/release").join(name)
 }
 pub fn workdir(ctx: &Ctx, case: u64) -> PathBuf {
-    let d = Path::new(&verif_root()).join("target/tmp").join(format!("{}-work", ctx.id)).join(format!("{}-{}-{}", ctx.profile, ctx.shard, case));
+    let d = Path::new(&verif_root()).join("target/tmp").join(format!("{}-work-{}", ctx.id, run_tag())).join(format!("{}-{}-{}", ctx.profile, ctx.shard, case));
     let _ = std::fs::remove_dir_all(&d);
     std::fs::create_dir_all(&d).unwrap();
     d
